@@ -33,6 +33,7 @@ import Olla.Model.Bucket
 import Olla.Model.Admission
 import Olla.Spec.C17
 import Olla.Gen.Security
+import Olla.Spec.State
 
 namespace Olla.Props.C17
 open Olla.Model.Bucket Olla.Model.Admission Olla.Spec.C17
@@ -592,5 +593,15 @@ example : (rateRun ⟨1, 5, 0, 1⟩ (RState.init ⟨1, 5, 0, 1⟩ 0) [⟨0, ("a"
 example : bodyPath .readerWrapped 1000 none 5000 = ⟨true, none, 1000⟩ := by decide
 example : bodyPath .declaredOnly 1000 (some 5000) 5000 = ⟨true, none, 0⟩ := by decide
 example : bodyPath .declaredOnly 1000 (some 1000) 1000 = ⟨false, some 1000, 1000⟩ := by decide
+
+/-! ### tie: no process-wide state on the modelled path
+
+The theorems above are about single calls (or the history of one object). They cover every
+request of a running process only if a call reaches no state that outlives it besides that
+object. `Olla.Gen.State` is re-read from the source on every run: the package-level variables
+reachable from each function inside its package that the package changes after initialisation. -/
+theorem C17_tie_no_process_wide_state :
+    Olla.Spec.State.reachesOnly "util.GetClientIP" [] = true ∧
+    Olla.Spec.State.reachesOnly "security.Validate" [] = true := by decide
 
 end Olla.Props.C17
